@@ -1,5 +1,7 @@
 """C17 — calc_post_err_prob_cutoff vs Model/Cutoff.v (float-exact grid)."""
 import itertools
+
+import numpy as np
 import math
 from fractions import Fraction
 
@@ -69,6 +71,10 @@ class CutoffSuite(Suite):
             peps += [Fraction(rng.randint(int(max(peps + [lv]) * D), D), D) for _ in range(rng.randint(0, 3))]
             peps = [str(x) for x in peps] + (["nan"] if rng.random() < 0.2 else [])
             rng.shuffle(peps)
+            if rng.random() < 0.5:
+                # the level is the double NEXT TO that mean: a mean that exceeds the level by one unit in the last place crosses, a
+                # mean one unit below does not (every other prefix mean is at least 2^-23 away, so only this prefix is affected)
+                lv = Fraction(float(np.nextafter(float(lv), rng.choice([0.0, 1.0]))))
             yield {"peps": peps, "level": str(lv)}
         for _ in range(n_random):
             n = rng.choice([0, 1, 2, 3, 5, 8, 13, 30, 60]) if rng.random() < 0.9 else rng.randint(100, 600)
